@@ -68,6 +68,11 @@ def fmtNote (qd : List (Int × Nat)) (ns : List Note) (n : Note) : String :=
             fmtSymField n.sym, fmtOpt fmtEst (symbolicDuration qd n), fmtRef ns n.tiePrev, fmtRef ns n.tieNext,
             fmtList fmtNat n.slurStops]
 
+/-- without the estimated `symbolic_duration` column (used where the note class has no estimate) -/
+def fmtNoteS (ns : List Note) (n : Note) : String :=
+  fmtTuple [n.id.getD "-", fmtNat n.start, fmtNat n.stop, n.pitch, fmtOpt fmtInt n.voice, fmtOpt fmtInt n.staff,
+            fmtSymField n.sym, fmtRef ns n.tiePrev, fmtRef ns n.tieNext, fmtList fmtNat n.slurStops]
+
 def fmtPieces (l : List Piece) : String :=
   fmtList (fun p => fmtTuple [fmtNat p.1, fmtNat p.2.1, fmtEst p.2.2]) l
 
@@ -76,6 +81,14 @@ def handle (ts : List String) : String :=
   | "est" :: rest =>
     orErr <| (run (do let d ← rat; let v ← nat; let c ← bool; pure (d, v, c)) rest).bind fun (d, v, c) =>
       (estimate d v c).map fmtEst
+  | "estl" :: rest =>
+    -- one divisions value, many durations: the list of estimates
+    orErr <| (run (do let v ← nat; let c ← bool; let ds ← list nat; pure (v, c, ds)) rest).map fun (v, c, ds) =>
+      fmtList (fun (d : Nat) => ((estimate (d : Rat) v c).map fmtEst).getD "err") ds
+  | "estr" :: rest =>
+    -- one divisions value, the durations lo..hi-1
+    orErr <| (run (do let v ← nat; let lo ← nat; let hi ← nat; pure (v, lo, hi)) rest).map fun (v, lo, hi) =>
+      fmtList (fun (d : Nat) => ((estimate (d : Rat) v false).map fmtEst).getD "err") ((List.range (hi - lo)).map (· + lo))
   | "estold" :: rest =>
     orErr <| (run (do let d ← rat; let v ← nat; pure (d, v)) rest).bind fun (d, v) =>
       (estimateOld d v).map fmtEst
@@ -111,8 +124,32 @@ def handle (ts : List String) : String :=
   | "splitnote" :: rest =>
     orErr <| (run (do let p ← parsePart; let ns ← list parseNote; let k ← nat; let d ← nat; pure (p, ns, k, d)) rest).map
       fun (p, ns, k, d) => match splitNoteByKey p.qd ns k d with
-        | some out => fmtList (fmtNote p.qd out) out
+        | some out => fmtList (fmtNoteS out) out
         | none => "none"
+  | "tupc" :: rest =>
+    orErr <| (run (do let p ← parsePart; let ns ← list parseNote; pure (p, ns)) rest).map fun (p, ns) =>
+      fmtNat (tupletCandidates p.qd ns).length
+  | "san" :: rest =>
+    orErr <| (run (do let tol ← nat; let ns ← list parseNote; pure (tol, ns)) rest).map fun (tol, ns) =>
+      let out := sanitizeTies ns tol
+      fmtList (fun n => fmtTuple [fmtRef out (some n.key), fmtRef out n.tiePrev, fmtRef out n.tieNext]) out
   | _ => "bad-request"
 
-def main : IO Unit := mainLoop handle
+partial def readAll (h : IO.FS.Stream) (acc : Array String) : IO (Array String) := do
+  let line ← h.getLine
+  if line.isEmpty then return acc else readAll h (acc.push line)
+
+/-- requests are independent: answer them in parallel chunks, print in order -/
+def main : IO Unit := do
+  let stdin ← IO.getStdin
+  let stdout ← IO.getStdout
+  let lines ← readAll stdin #[]
+  let n := lines.size
+  let chunk := 4
+  let nchunks := (n + chunk - 1) / chunk
+  let tasks := (List.range nchunks).map fun c => Task.spawn fun _ =>
+    (lines.extract (c * chunk) (min n ((c + 1) * chunk))).map (fun l => handle (tokens l))
+  for t in tasks do
+    for r in t.get do
+      stdout.putStrLn r
+  stdout.flush
